@@ -2,6 +2,7 @@
 //! Every subcommand drives the real library (path dependency on /repo) and writes NDJSON
 //! traces that the Trace*.tla modules validate, or replays TLC-generated behaviours.
 
+mod cfgcmd;
 mod enc;
 mod fill;
 mod gen;
@@ -93,6 +94,8 @@ fn main() {
         "sink" => sink::cmd_sink(&a),
         "faulty" => sink::cmd_faulty(&a),
         "fill" => fill::cmd_fill(&a),
+        "cfg07" => cfgcmd::cmd_cfg07(&a),
+        "cfg19" => cfgcmd::cmd_cfg19(&a),
         other => {
             eprintln!("unknown subcommand {other:?}");
             std::process::exit(2);
